@@ -13,7 +13,7 @@ import (
 
 // family "path": binds RuxPath (spec/RuxPath.tla) to Router.Add/Group (Route.Path()), Router.Match and ServeHTTP.
 
-var tokenText = map[string]string{"SP": " ", "TAB": "\t", "NL": "\n"}
+var tokenText = map[string]string{"SP": " ", "TAB": "\t", "NL": "\n", "NBSP": "\u00a0", "VT": "\v"}
 
 func tokStr(toks []string) string {
 	var sb strings.Builder
